@@ -35,6 +35,12 @@ impl Session {
     }
 
     pub fn abort_transaction(&mut self) -> QueryRunnerResult<()> {
+        // A transaction that already ended has nothing left to roll back. In particular the
+        // implicit rollback of a dropped session must not append an ABORT record behind the
+        // COMMIT record of its transaction: recovery would discard the committed work.
+        if !self.ctx.can_commit() {
+            return Ok(());
+        }
         self.logger.log_abort()?;
         self.ctx.abort_transaction()?;
         self.logger.log_end()?;
